@@ -32,6 +32,37 @@ func otherSymbol(t *rapid.T, label string, c byte) byte {
 	return o
 }
 
+// ambCodes are the IUPAC ambiguity codes (n several times: the no-call of a
+// sequencer is by far the most frequent one in real data).
+const ambCodes = "nnnnrykmswbdhv"
+
+// editSymbol draws the symbol written by a substitution (differs from not) or
+// an insertion (not = 0).  amb > 0: about one symbol in amb is an ambiguity code.
+func editSymbol(t *rapid.T, label string, not byte, amb int) byte {
+	if amb > 0 && rapid.IntRange(0, amb-1).Draw(t, label+"_amb") == 0 {
+		o := ambCodes[rapid.IntRange(0, len(ambCodes)-1).Draw(t, label+"_code")]
+		if o != not {
+			return o
+		}
+	}
+	if not == 0 {
+		return gen.ACGT[rapid.IntRange(0, 3).Draw(t, label)]
+	}
+	return otherSymbol(t, label, not)
+}
+
+// hasAmbiguity says whether s holds a symbol outside a, c, g, t.
+func hasAmbiguity(s string) bool {
+	for i := 0; i < len(s); i++ {
+		switch s[i] {
+		case 'a', 'c', 'g', 't':
+		default:
+			return true
+		}
+	}
+	return false
+}
+
 func indexOf(s string, c byte) int {
 	for i := 0; i < len(s); i++ {
 		if s[i] == c {
@@ -43,8 +74,9 @@ func indexOf(s string, c byte) int {
 
 // oneVariant applies one edit to s.  The position is drawn inside a homopolymer
 // half of the time (when there is one); an insertion extends the neighbouring
-// run half of the time.  Returns the variant and a class label.
-func oneVariant(t *rapid.T, s string) (string, string) {
+// run half of the time.  amb > 0: about one written symbol in amb is an IUPAC
+// ambiguity code.  Returns the variant and a class label.
+func oneVariant(t *rapid.T, s string, amb int) (string, string) {
 	kind := rapid.SampledFrom([]byte{'s', 's', 'i', 'd'}).Draw(t, "kind")
 	if len(s) <= 1 && kind == 'd' {
 		kind = 'i'
@@ -65,13 +97,13 @@ func oneVariant(t *rapid.T, s string) (string, string) {
 	}
 	switch kind {
 	case 's':
-		return s[:pos] + string(otherSymbol(t, "sym", s[pos])) + s[pos+1:], label
+		return s[:pos] + string(editSymbol(t, "sym", s[pos], amb)) + s[pos+1:], label
 	case 'i':
 		var c byte
 		if len(s) > 0 && rapid.Bool().Draw(t, "extend_run") {
 			c = s[min(pos, len(s)-1)]
 		} else {
-			c = gen.ACGT[rapid.IntRange(0, 3).Draw(t, "sym")]
+			c = editSymbol(t, "sym", 0, amb)
 		}
 		return s[:pos] + string(c) + s[pos:], label
 	default:
@@ -89,6 +121,15 @@ func genDataset(t *rapid.T, maxSeqs int) ([]rec, []string) {
 	nsamples := rapid.SampledFrom([]int{1, 1, 2, 3, 4}).Draw(t, "nsamples")
 	samples := sampleNames[:nsamples]
 	alphabet := rapid.SampledFrom([]string{"acgt", "acgt", "acgt", "ac", "aaac"}).Draw(t, "alphabet")
+	// ambiguity codes: none (half of the data sets), or about one symbol in amb of
+	// the seeds and of the symbols written by the edits
+	amb := rapid.SampledFrom([]int{0, 0, 0, 12, 4, 2}).Draw(t, "ambiguity")
+	draw := func(label string, l int) string {
+		if amb == 0 {
+			return gen.Seq(t, label, l, alphabet)
+		}
+		return gen.SeqMix(t, label, l, alphabet, ambCodes, amb)
+	}
 	n := gen.Len(t, "nseqs", 1, maxSeqs, 2, 3)
 
 	type item struct {
@@ -114,7 +155,7 @@ func genDataset(t *rapid.T, maxSeqs int) ([]rec, []string) {
 	}
 
 	seedLen := gen.Len(t, "seedlen", 1, 40, 1, 2, 3, 8)
-	add(gen.Seq(t, "seed", seedLen, alphabet), -1)
+	add(draw("seed", seedLen), -1)
 	shape := rapid.SampledFrom([]string{"star", "chain", "hub2", "mixed", "mixed"}).Draw(t, "shape")
 	classes["shape:"+shape] = true
 	hubChild := -1
@@ -123,10 +164,10 @@ func genDataset(t *rapid.T, maxSeqs int) ([]rec, []string) {
 		switch {
 		case what == 0: // unrelated sequence of about the same length
 			l := max(1, seedLen+rapid.IntRange(-1, 1).Draw(t, "dl"))
-			add(gen.Seq(t, "unrelated", l, alphabet), -1)
+			add(draw("unrelated", l), -1)
 			continue
 		case what == 1 && len(items) > 1: // a new seed
-			add(gen.Seq(t, "seed2", gen.Len(t, "seedlen2", 1, 40, 1, 2, 3), alphabet), -1)
+			add(draw("seed2", gen.Len(t, "seedlen2", 1, 40, 1, 2, 3)), -1)
 			continue
 		}
 		parent := 0
@@ -148,14 +189,24 @@ func genDataset(t *rapid.T, maxSeqs int) ([]rec, []string) {
 		k := rapid.SampledFrom([]int{1, 1, 1, 1, 1, 1, 2, 3}).Draw(t, "nedits")
 		for e := 0; e < k && len(s) > 0; e++ {
 			var lab string
-			s, lab = oneVariant(t, s)
+			s, lab = oneVariant(t, s, amb)
 			if k == 1 {
 				classes["variant:"+lab] = true
 			}
 		}
-		if add(s, parent) && shape == "hub2" && parent == 0 && hubChild < 0 {
-			hubChild = len(items) - 1
+		if add(s, parent) {
+			if shape == "hub2" && parent == 0 && hubChild < 0 {
+				hubChild = len(items) - 1
+			}
+			// the classes the strict comparison of symbols is decided on: a variant at one /
+			// two or three edits of its parent, one of the two carrying an ambiguity code
+			if hasAmbiguity(s) || hasAmbiguity(items[parent].seq) {
+				classes[fmt.Sprintf("ambiguity_code_within_%d_edits_of_parent", k)] = true
+			}
 		}
+	}
+	if amb > 0 {
+		classes["alphabet:with_ambiguity_codes"] = true
 	}
 
 	countMode := rapid.SampledFrom([]string{"tiny", "mid", "skew", "derived", "derived"}).Draw(t, "countmode")
@@ -230,6 +281,23 @@ func variantByIndex(s string, v int) string {
 	}
 }
 
+// variantByIndexAmb is variantByIndex with the symbol written by a substitution
+// or an insertion replaced by the ambiguity code amb (kept as it is when the
+// father already carries amb there, and for deletions).
+func variantByIndexAmb(s string, v int, amb byte) string {
+	L := len(s)
+	switch {
+	case v < 3*L:
+		if p := v / 3; s[p] != amb {
+			return s[:p] + string(amb) + s[p+1:]
+		}
+	case v < 3*L+4*(L+1):
+		p := (v - 3*L) / 4
+		return s[:p] + string(amb) + s[p:]
+	}
+	return variantByIndex(s, v)
+}
+
 func gcd(a, b int) int {
 	for b != 0 {
 		a, b = b, a%b
@@ -254,7 +322,13 @@ func genContention(t *rapid.T, o starOpt) ([]rec, []string) {
 	// enough room for nsons distinct substitution variants of one father
 	minLen := nsons/3 + 2
 	L := rapid.IntRange(minLen, max(minLen, o.maxLen)).Draw(t, "len")
-	father := gen.Seq(t, "father", L, gen.ACGT)
+	// ambiguity codes: in a third of the data sets the fathers carry a few of them and
+	// every amb-th son is written with one at the place of its (first) difference
+	amb := rapid.SampledFrom([]int{0, 0, 0, 0, 2, 5}).Draw(t, "ambiguity")
+	father := gen.SeqMix(t, "father", L, gen.ACGT, ambCodes, 20*min(amb, 1))
+	if amb > 0 {
+		classes["alphabet:with_ambiguity_codes"] = true
+	}
 	sonCounts := rapid.SampledFrom([]string{"all_equal", "all_equal", "one_two_three", "spread"}).Draw(t, "soncounts")
 	classes["son_counts:"+sonCounts] = true
 	nsamples := rapid.SampledFrom([]int{1, 1, 1, 2}).Draw(t, "nsamples")
@@ -292,7 +366,7 @@ func genContention(t *rapid.T, o starOpt) ([]rec, []string) {
 			if rapid.Bool().Draw(t, "related_father") {
 				fathers = append(fathers, variantByIndex(father, rapid.IntRange(0, 3*L-1).Draw(t, "father_variant")))
 			} else {
-				fathers = append(fathers, gen.Seq(t, "father2", L, gen.ACGT))
+				fathers = append(fathers, gen.SeqMix(t, "father2", L, gen.ACGT, ambCodes, 20*min(amb, 1)))
 			}
 		}
 	}
@@ -332,6 +406,9 @@ func genContention(t *rapid.T, o starOpt) ([]rec, []string) {
 		}
 		for i := 0; i < per; i++ {
 			s := variantByIndex(f, (start+i*stride)%space)
+			if amb > 0 && i%amb == 0 {
+				s = variantByIndexAmb(f, (start+i*stride)%space, ambCodes[(i/amb)%len(ambCodes)])
+			}
 			for e := 1; e < o.edits && len(s) > 2; e++ {
 				// further differences (distance 2..3 data sets): taken from a second progression
 				if (i+e)%o.edits == 0 {
